@@ -32,6 +32,7 @@ type Oblig struct {
 	Model   string
 	Output  string
 	ReplayInfo map[string]any
+	ShortBudget bool // expected to fail (open known finding): short solver budget
 }
 
 type region struct {
